@@ -43,7 +43,7 @@ class World(StackWorld):
         StackWorld.__init__(self, run)
         self.invs = {}  # request id -> Inv
         self.order = []
-        self.next_req = 100
+        self.next_req = 100  # (build() may lower it: INVOCATION ids from the range of the session's own request ids)
         self.regs = {}  # proc -> registration id
         self.ops_left = 0
         self.user_futs = []
@@ -119,6 +119,9 @@ class World(StackWorld):
         self.pump_all()
         if len(self.regs) != 3:
             raise SetupViolation("registration-did-not-complete:%s/%s" % (kind, self.fwname), repr(self.regs))
+        if ch.flag("callee-is-a-caller-too", 0.2):
+            self.own_calls_left = 1 + ch.choose(2, "own-calls")
+            self.next_req = 2 + ch.choose(4, "first-invocation-id")
         self.ops_left = 2 + ch.choose(8, "ninv")
         self.run.log("cfg", sorted((k, repr(v)) for k, v in cfg.items()))
         self.base_msgs = len(self.dealer.msgs)
@@ -272,7 +275,24 @@ class World(StackWorld):
             acts.append((1.5, "interrupt", self.dealer_interrupt))
         if up and self.order and len(self.unreg_started) < 2 and self.callee._session_id:
             acts.append((0.7, "unregister", self.app_unregister))
+        if up and self.own_calls_left > 0 and self.callee._session_id:
+            acts.append((0.8, "callee-calls-out-and-cancels", self.app_call_and_cancel))
         return acts
+
+    own_calls_left = 0
+
+    def app_call_and_cancel(self):
+        """the callee session is a caller too: it issues a call of its own (never answered by the scripted dealer) and
+        gives up on it.  Its request ids and the dealer's INVOCATION ids are different number spaces."""
+        self.own_calls_left -= 1
+        self.run.probe("callee-session-calls-out-and-cancels")
+        try:
+            f = self.fw.call(self, self.callee.call, "com.example.elsewhere", 1)
+            w = self.fw.watch(f)
+            self.fw.call(self, self.fw.cancel_future, f)
+            self.own_call_watch = w
+        except Exception as e:  # noqa
+            self.run.log("own-call-raised", type(e).__name__)
 
     def app_unregister(self):
         ch = self.run.ch
